@@ -38,7 +38,7 @@ def reduce_pairs(rng, tier):
         for _, m in kinds:
             if tier == "quick" and n == 3 and rng.random() < 0.5:
                 continue
-            base = C01.draw_cover(rng, keys, vals, mbn, embs)
+            base = C01.draw_cover(rng, keys, vals, mbn, embs, strategy=False)
             base["mask"] = m
             base["tf"] = 1 if rng.random() < 0.2 else 0
             if base["tf"]:
